@@ -44,6 +44,7 @@ type fileObj struct {
 	wpos    int  // next write offset when positional
 	posw    bool // opened without O_TRUNC/O_APPEND over existing content: writes overwrite in place
 	closed  bool
+	charDev bool // a character device (/dev/null, a terminal)
 	std     string
 }
 
@@ -362,6 +363,9 @@ func registerEnv(e *Engine) {
 	// ---- os / io ----
 	r["os.Open"] = func(e *Engine, fr *frame, args []Value, site ssa.CallInstruction) Value {
 		name := mustStr(e, args[0], "file name")
+		if name == "/dev/null" {
+			return tuple{&hostObj{tag: "os.File", v: &fileObj{name: name, charDev: true}}, iface{}}
+		}
 		f, ok := e.env().files[name]
 		if !ok {
 			return tuple{(*hostObj)(nil), e.newErr("open " + name + ": no such file or directory")}
@@ -403,6 +407,15 @@ func registerEnv(e *Engine) {
 		}
 		e.env().files[name] = f
 		return tuple{&hostObj{tag: "os.File", v: f}, iface{}}
+	}
+	// Stat: a regular file of the current size, or a character device (/dev/null)
+	r["(*os.File).Stat"] = func(e *Engine, fr *frame, args []Value, site ssa.CallInstruction) Value {
+		f := e.fileOf(args[0])
+		mk := e.prog.Pkgs[vfPkg].Func("newFileInfo")
+		if mk == nil {
+			e.abort(abortEngine, "os.File.Stat: vf.newFileInfo missing")
+		}
+		return tuple{e.call(mk, []Value{f.name, int64(len(f.content)), f.charDev}, site), iface{}}
 	}
 	r["os.WriteFile"] = func(e *Engine, fr *frame, args []Value, site ssa.CallInstruction) Value {
 		name := mustStr(e, args[0], "file name")
